@@ -258,6 +258,15 @@ class AlignInt(AbsInt):
 
     def do_call(self, b, frame, bi, t, st, depth):
         fn = t.get('fn') or ''
+        if any(fn.endswith(x) for x in self.extra_sinks):
+            args = [self.operand(st, b, frame, a) for a in t['args']]
+            self.async_calls.append((b.path, bi, fn, t.get('name') or fn.rsplit('::', 1)[-1], args, st.copy(), frame, t))
+            if t['t'] < 0:
+                return []
+            res = self.ret_opaque(st, b, frame, bi, t)
+            cell, tid = self.resolve(st, b, frame, t['dst'])
+            self.write_cell(st, cell, res)
+            return [(t['t'], st)]
         if t.get('trait') == 'ops::Qcow2IoOps' or self.is_async_fn(fn) or any(fn.endswith(x) for x in self.sync_sinks):
             args = [self.operand(st, b, frame, a) for a in t['args']]
             rec = (b.path, bi, fn, t.get('name') or fn.rsplit('::', 1)[-1], args, st.copy(), frame, t)
@@ -272,6 +281,7 @@ class AlignInt(AbsInt):
         return AbsInt.do_call(self, b, frame, bi, t, st, depth)
 
     sync_sinks = ()
+    extra_sinks = ()
     mapping_except = ()
     used_mapping_assumption = False
 
@@ -281,6 +291,13 @@ class AlignInt(AbsInt):
         for suf in self.aligned_ptr_fns:
             if fn.endswith(suf):
                 return ('u', ('alignedptr', fn, args[0] if args else None), None)
+        if fn.endswith('Qcow2Info::block_size') and self.f.body(fn) is None:
+            return shl1(BS)
+        if (fn.endswith('ops::Deref::deref') or fn.endswith('ops::DerefMut::deref_mut')) and self.f.body(fn) is None and t.get('a'):
+            ty0 = self.f.types[t['a'][0]]
+            if ty0['k'] == 'adt' and ty0['p'].endswith('helpers::Qcow2IoBuf'):
+                # the library's 4096-aligned buffer seen from another crate
+                return ('rawslice', ('u', ('alignedptr', fn, args[0]), None), ('u', ('iobuflen', args[0]), 'usize'), 'helpers::Qcow2IoBuf')
         if fn.endswith('Qcow2DevParams::get_bs_bits'):
             return BS
         if fn.endswith('Qcow2Header::cluster_bits'):
